@@ -165,6 +165,7 @@ func checkC06(c *Ctx) {
 		return
 	}
 	c.Rule("C06.R5", "an egress-policy denial stays recognisable: every denial wraps ErrPolicyDenied with %w and every re-wrap of a policy verdict on its way to the dispatcher uses %w, so the policy_denied row of the decision table is the one taken")
+	checkActionOwnParameter(c, "C06.R3")
 	checkSentinelPreserved(c, "C06.R5", p.policyModel())
 	checkErrChainPreserved(c, "C06.R5")
 	kinds := checkDecisionTable(c, "C06.R2", classify, succFn, retryFn)
